@@ -8,6 +8,7 @@
    clone/get_hash calls; [get_hash H m] is the memoised hash for an arbitrary hash function H (AHash).
    All statements are over all names and all label lists of any length.                           *)
 From Coq Require Import List NArith Bool Permutation Sorted.
+Require Import MV.Common.Interleave MV.C03.MemoRace MV.C03.MemoRaceProofs.
 Import ListNotations.
 Require Import MV.C03.Model MV.C03.Spec MV.C03.Exec MV.C03.Order MV.C03.StableSort MV.C03.Proofs MV.C03.MemoProofs MV.C03.ExecProofs.
 Open Scope N_scope.
@@ -156,3 +157,11 @@ Example C03_nonvacuous_case :
   | OPanic => False
   end /\ spec_ok c (run_case c) = true.
 Proof. vm_compute. auto. Qed.
+
+(* the memoised hash under races: for every true hash value h, any number of threads, any lists of
+   get_hash / clone-then-get_hash calls on one shared lazily hashed key and EVERY schedule of their
+   atomic steps, every call returns h *)
+Theorem C03_get_hash_stable_under_races : forall (h : N) ps sched,
+  Forall (fun l => Forall (fun r => r = h) (MemoRace.results l))
+         (snd (fst (exec (MemoRace.step h) MemoRace.site (MemoRace.init_config ps) sched))).
+Proof. exact get_hash_stable_under_races. Qed.
